@@ -729,10 +729,6 @@ def xmlRoundTrip (g : Time) (r : Report) : XmlOutcome :=
 
 /-- Python-representability of a suite's children: `_tests` is a dict keyed by test name and
     `properties` a dict, so names / keys are distinct (the Lean types do not enforce it). -/
-def distinctNames (names : List String) : Bool :=
-  match names with
-  | [] => true
-  | n :: rest => !rest.contains n && distinctNames rest
 
 def metaRepr (m : Meta) : Bool := distinctNames (m.properties.map propKey)
 def testRepr (t : TestResult) : Bool := metaRepr t.md
